@@ -44,14 +44,21 @@ fn build_parser(p: &Pool, policy: Policy, delay: Delay, slog: &StoreLog, llog: &
 }
 
 fn standalone(p: &Pool, ti: usize, di: usize) -> String {
-    let parser = match parser_with(Config::Stdlib, Policy::Eager, &p.partials) {
+    // the same plugin set as the shared parser (a parse failure lists the registered plugins)
+    let parser = match ParserBuilder::with_stdlib().partials(EagerCompiler::new(crate::cfg::source(&p.partials))).build() {
         Ok(x) => x,
         Err(_) => return "parser-build-error".into(),
     };
     match parser.parse(&p.mains[ti]) {
         Ok(t) => render(&t, &p.datas[di].to_object()).summary_with_error(),
-        Err(_) => "parse-error".into(),
+        Err(e) => parse_error(&e),
     }
+}
+
+/// a parse failure is identified by its whole message (it lists the registered plugins, which a
+/// shared parser must report exactly as a private one does)
+fn parse_error(e: &liquid::Error) -> String {
+    format!("parse-error:{e}")
 }
 
 pub struct RoundCfg {
@@ -60,6 +67,9 @@ pub struct RoundCfg {
     pub policy: Policy,
     pub delay: Delay,
     pub skew: bool,
+    /// every thread's first call is `parse` of the pool's last template (used with a last template
+    /// that does not parse: the first failing parse on the shared parser is then simultaneous)
+    pub first_parse_last: bool,
 }
 
 /// one concurrent round; returns (calls, store events) or a violation
@@ -68,7 +78,15 @@ fn round(p: &Pool, rc: &RoundCfg, seed: u64) -> Result<(Vec<Call>, Vec<crate::ps
     let llog = Log::default();
     let parser = build_parser(p, rc.policy, rc.delay, &slog, &llog).ok_or(("harness".to_string(), "parser build failed".to_string()))?;
     let parser = Arc::new(parser);
-    let templates: Arc<Vec<Option<Template>>> = Arc::new(p.mains.iter().map(|m| parser.parse(m).ok()).collect());
+    // templates that do not parse are recognised on a private parser, so that the *first* failing
+    // parse on the shared parser happens inside the concurrent phase
+    let private = parser_with(Config::Stdlib, Policy::Eager, &p.partials).ok();
+    let templates: Arc<Vec<Option<Template>>> = Arc::new(
+        p.mains
+            .iter()
+            .map(|m| if private.as_ref().map(|q| q.parse(m).is_ok()).unwrap_or(true) { parser.parse(m).ok() } else { None })
+            .collect(),
+    );
     let datas: Arc<Vec<liquid::Object>> = Arc::new(p.datas.iter().map(|d| d.to_object()).collect());
     let expected: Arc<Vec<Vec<String>>> = Arc::new(
         (0..p.mains.len())
@@ -84,6 +102,7 @@ fn round(p: &Pool, rc: &RoundCfg, seed: u64) -> Result<(Vec<Call>, Vec<crate::ps
             (parser.clone(), templates.clone(), datas.clone(), expected.clone(), mains.clone(), barrier.clone(), all.clone());
         let ncalls = rc.calls;
         let skew = rc.skew;
+        let first_parse_last = rc.first_parse_last;
         let mut rng = Rng::new(seed).fork(th as u64 + 1);
         handles.push(std::thread::spawn(move || {
             THREAD_ID.with(|t| t.set(th as u64 + 1));
@@ -96,16 +115,20 @@ fn round(p: &Pool, rc: &RoundCfg, seed: u64) -> Result<(Vec<Call>, Vec<crate::ps
                 }
             }
             for idx in 0..ncalls {
-                let ti = rng.below(mains.len());
+                let mut ti = rng.below(mains.len());
                 let di = rng.below(datas.len());
-                let opk = rng.below(4);
+                let mut opk = rng.below(4);
+                if first_parse_last && idx == 0 {
+                    ti = mains.len() - 1;
+                    opk = 0;
+                }
                 let call = stamp();
                 let (op, got) = match opk {
                     0 => {
                         // parse on the shared parser, then render the new template
                         let got = match crate::mon::guard(|| parser.parse(&mains[ti])) {
                             Ok(Ok(t)) => render(&t, &datas[di]).summary_with_error(),
-                            Ok(Err(_)) => "parse-error".to_string(),
+                            Ok(Err(e)) => parse_error(&e),
                             Err(p) => format!("panic:{}", p.key()),
                         };
                         ("parse+render", got)
@@ -124,7 +147,7 @@ fn round(p: &Pool, rc: &RoundCfg, seed: u64) -> Result<(Vec<Call>, Vec<crate::ps
                                     Err(p) => format!("panic:{}", p.key()),
                                 }
                             }
-                            None => "parse-error".to_string(),
+                            None => expected[ti][di].clone(),
                         };
                         ("render_to", got)
                     }
@@ -142,14 +165,14 @@ fn round(p: &Pool, rc: &RoundCfg, seed: u64) -> Result<(Vec<Call>, Vec<crate::ps
                                 Ok(Err(e)) => format!("err:{}", crate::exec::first_line(&e)),
                                 Err(p) => format!("panic:{}", p.key()),
                             },
-                            None => "parse-error".to_string(),
+                            None => expected[ti][di].clone(),
                         };
                         ("render", got)
                     }
                     _ => {
                         let got = match &templates[ti] {
                             Some(t) => render(t, &datas[di]).summary_with_error(),
-                            None => "parse-error".to_string(),
+                            None => expected[ti][di].clone(),
                         };
                         ("render_to+render", got)
                     }
@@ -202,7 +225,7 @@ fn round(p: &Pool, rc: &RoundCfg, seed: u64) -> Result<(Vec<Call>, Vec<crate::ps
         for di in 0..p.datas.len() {
             let got = match crate::mon::guard(|| parser.parse(&p.mains[ti])) {
                 Ok(Ok(t)) => render(&t, &datas[di]).summary_with_error(),
-                Ok(Err(_)) => "parse-error".to_string(),
+                Ok(Err(e)) => parse_error(&e),
                 Err(pn) => format!("panic:{}", pn.key()),
             };
             if got != expected[ti][di] {
@@ -252,6 +275,35 @@ fn hammer_pool(r: &mut Rng) -> Pool {
         partials: vec![("dyn0".into(), "<dyn0:{{ b }}>".into()), ("dyn1".into(), "<dyn1:{{ c }}>".into())],
         mains: vec![main.to_string()],
         datas,
+    }
+}
+
+/// the pool of a cross round: partials `p` and `q` include each other from inside the body of a
+/// block chosen per round (data `gq` lets p include q, `gp` lets q include p; never both)
+fn cross_pool(r: &mut Rng) -> Pool {
+    use crate::val::RVal;
+    let blocks: [(&str, &str); 8] = [
+        ("{% ifchanged %}", "{% endifchanged %}"),
+        ("{% capture z %}", "{% endcapture %}{{ z }}"),
+        ("{% for i in (1..2) %}", "{% endfor %}"),
+        ("{% tablerow i in (1..2) %}", "{% endtablerow %}"),
+        ("{% if k %}", "{% endif %}"),
+        ("{% unless nope %}", "{% endunless %}"),
+        ("{% case k %}{% when 1 %}", "{% else %}other{% endcase %}"),
+        ("{% for i in (1..2) %}{% ifchanged %}{% capture z %}", "{% endcapture %}{{ z | size }}{% endifchanged %}{% endfor %}"),
+    ];
+    let (o1, c1) = *r.pick(&blocks);
+    let (o2, c2) = if r.chance(1, 2) { (o1, c1) } else { *r.pick(&blocks) };
+    let pad = "{{ w | upcase | append: '-padding-padding' | truncate: 30 }}";
+    let p = format!("{o1}P{{{{ k }}}}{pad}{{% if gq %}}{{% include 'q' %}}{{% endif %}}{pad}p{c1}");
+    let q = format!("{o2}Q{{{{ k }}}}{pad}{{% if gp %}}{{% include 'p' %}}{{% endif %}}{pad}q{c2}");
+    let data = |gp: bool, gq: bool, k: i64| {
+        RVal::Object(vec![("gp".into(), RVal::Bool(gp)), ("gq".into(), RVal::Bool(gq)), ("k".into(), RVal::Int(k)), ("w".into(), RVal::Str(format!("word-{k}-word-{k}")))])
+    };
+    Pool {
+        partials: vec![("p".into(), p), ("q".into(), q)],
+        mains: vec!["<{% include 'p' %}>".to_string(), "[{% include 'q' %}]".to_string(), "{% render 'p', gq: gq, k: k, w: w %}|{% render 'q', gp: gp, k: k, w: w %}".to_string()],
+        datas: vec![data(false, true, 1), data(true, false, 1), data(false, false, 2)],
     }
 }
 
@@ -319,9 +371,16 @@ pub fn run(ctx: &mut Ctx, args: &[String]) {
         // threads, many calls -- the shape in which a narrow window in per-node or process-wide
         // state of a filter or tag is actually hit
         let hammer = i % 50 == 49 && max_calls >= 50 && max_threads >= 8;
-        let p = if hammer { hammer_pool(&mut r) } else { gen_pool(&mut r) };
-        let rc = if hammer {
-            RoundCfg { threads: 8, calls: 1500, policy: if r.chance(1, 2) { Policy::Lazy } else { Policy::Eager }, delay: Delay::None, skew: false }
+        // every 25th round is a "cross" round: two partials that include each other from inside
+        // every kind of block body (never recursively within one render), entered from opposite
+        // ends by different threads -- a block that held a lock while rendering its body would
+        // deadlock here
+        let cross = i % 25 == 12 && max_threads >= 4;
+        let p = if hammer { hammer_pool(&mut r) } else if cross { cross_pool(&mut r) } else { gen_pool(&mut r) };
+        let rc = if cross {
+            RoundCfg { threads: 8.min(max_threads), calls: 300.min(max_calls.max(50)), policy: if r.chance(1, 2) { Policy::Lazy } else { Policy::Eager }, delay: Delay::None, skew: false, first_parse_last: false }
+        } else if hammer {
+            RoundCfg { threads: 8, calls: 1500, policy: if r.chance(1, 2) { Policy::Lazy } else { Policy::Eager }, delay: Delay::None, skew: false, first_parse_last: false }
         } else {
             RoundCfg {
             threads: (*r.pick(&[2usize, 2, 3, 4, 4, 8, 16])).min(max_threads),
@@ -329,7 +388,17 @@ pub fn run(ctx: &mut Ctx, args: &[String]) {
             policy: if r.chance(3, 4) { Policy::Lazy } else { Policy::Eager },
             delay: *r.pick(&[Delay::None, Delay::Yield, Delay::Yield, Delay::Sleep(50), Delay::Sleep(500)]),
             skew: r.chance(1, 2),
+            first_parse_last: false,
             }
+        };
+        // one round in five: the pool gets a template that does not parse (unknown filter / tag /
+        // block, so the message lists the registered plugins) and every thread starts by parsing it
+        let (p, rc) = if !hammer && !cross && i % 5 == 3 {
+            let mut p = p;
+            p.mains.push(r.pick(&["{{ a | nosuchfilter }}", "{% nosuchtag a %}", "{% nosuchblock %}{% endnosuchblock %}", "{% if a %}{{ b | nosuchfilter: 1 }}{% endif %}"]).to_string());
+            (p, RoundCfg { first_parse_last: true, skew: false, ..rc })
+        } else {
+            (p, rc)
         };
         let seed = r.next();
         let desc = {
@@ -340,6 +409,7 @@ pub fn run(ctx: &mut Ctx, args: &[String]) {
             j["policy"] = json!(rc.policy.name());
             j["delay"] = json!(format!("{:?}", rc.delay));
             j["skew"] = json!(rc.skew);
+            j["first_parse_last"] = json!(rc.first_parse_last);
             j["round_seed"] = json!(seed);
             j
         };
@@ -361,6 +431,12 @@ pub fn run(ctx: &mut Ctx, args: &[String]) {
                 }
                 if hammer {
                     ctx.count("rounds:hammer");
+                }
+                if cross {
+                    ctx.count("rounds:cross-include");
+                }
+                if rc.first_parse_last {
+                    ctx.count("rounds:contended-first-failing-parse");
                 }
                 ctx.add("calls", calls.len() as u64);
                 ctx.add("calls_overlapping_another_thread", overlapping);
@@ -415,6 +491,7 @@ pub fn replay(j: &serde_json::Value) -> bool {
         policy: Policy::from_name(j["policy"].as_str().unwrap_or("lazy")),
         delay,
         skew: j["skew"].as_bool().unwrap_or(false),
+        first_parse_last: j["first_parse_last"].as_bool().unwrap_or(false),
     };
     // schedules are not reproducible: repeat the round
     for attempt in 0..200 {
